@@ -140,6 +140,9 @@ impl Answers {
         #[cfg(assets_manager_verif)]
         crate::verif::emit("Consume", || format!("\"token\":{}", token.unwrap_or(usize::MAX)));
         *token = None;
+        // Wake up the hot-reloading thread, which may be waiting for the
+        // answer slot to be emptied.
+        self.condvar.notify_all();
     }
 }
 
